@@ -20,7 +20,7 @@ RULE = ('connected routines: every connected labelled 4-node graph with two vert
         'strongly connected 4-6 node digraphs (rings with 0-2 chords, triangles sharing a node); budgets 1-2 iterations '
         '(thorough 3); latticisers: all n! initial orders x k iterations, default D and a symmetric caller-supplied D (as float64, '
         'int64 and uint8 arrays), directed latticisers also with two asymmetric D; '
-        'randomize_graph_partial_und: masks none / one cell / all-but-one cell; ALL generator answers per '
+        'randomize_graph_partial_und: masks one empty cell / all-but-one empty cell / every other empty cell / two occupied cells plus empty cells / all occupied cells (distinct weights); ALL generator answers per '
         'configuration; rejection clause: every disconnected graph n<=5 and every asymmetric 0/1 3-node matrix; '
         'non-trivial configuration = one where at least one candidate swap was refused and one accepted '
         '(>= 2 distinct outputs) or an input that must be rejected')
@@ -122,6 +122,15 @@ def catalogue(thorough):
                 for (a, b) in holes[::2]:
                     half[a, b] = half[b, a] = 1
                 masks['every_other'] = half
+        # masks that also cover cells holding a connection of the input: once that connection has been swapped away
+        # nothing may be put back there (weights are distinct, so a returning connection is recognisable)
+        on_edges = np.zeros((n, n))
+        for (a, b) in edges[:2]:
+            on_edges[a, b] = on_edges[b, a] = 1
+        for (a, b) in holes[1::2]:
+            on_edges[a, b] = on_edges[b, a] = 1
+        masks['two_edges_and_holes'] = on_edges
+        masks['all_edges'] = (W != 0).astype(float)
         for mname, B in masks.items():
             for ms in (1, 2):
                 cfgs.append({'fn': 'randomize_graph_partial_und', 'tag': tag + '_w_mask_' + mname, 'W': W,
@@ -186,7 +195,7 @@ def judge(t, cfg, status, value, case_fn):
     elif fn == 'randomize_graph_partial_und':
         A = np.asarray(value, dtype=float)
         B = np.array(p['B'], dtype=float)
-        created = (A != 0) & (W == 0)
+        created = (A != 0) & (A != W)          # distinct weights: a cell whose weight changed received a connection
         if np.any(created & (B != 0)):
             t.viol(fn, 'mask_respected', case_fn(), observed=A, detail={'mask': B})
             bad = True
@@ -214,7 +223,7 @@ def invariant(t, cfg, frames, case_fn):
         W = np.array(cfg['W'], dtype=float)
         B = np.array(cfg['params']['B'], dtype=float)
         t.c['state_invariants_checked'] += 1
-        if np.any((A != 0) & (W == 0) & (B != 0)):
+        if np.any((A != 0) & (A != W) & (B != 0)):
             t.viol(fn, 'state:mask_respected', case_fn(), observed=A)
         return
     if not fn.endswith('_connected'):
